@@ -58,6 +58,7 @@ Definition wres_irun (r : wres fo) : option irun :=
   | WOk (WI _ z) => Some (RV z)
   | WOk (WF f x) => Some (RV (f_bits fo f x))
   | WTrap k => Some (RT (trap_id k))
+  | WFuel => Some (RT 6%N)         (* the harness reports a call that does not finish as trap 6 *)
   | WStuck => None
   end.
 
@@ -92,6 +93,12 @@ Fixpoint fpow_free_s (tys : list ty) (s : stmt) : bool :=
   | SDecl _ _ e | SAssign _ e | SReturn e => fpow_free tys e
   | SCompound i op e => fpow_free tys e && match op, nth_error tys i with AMod, Some (TF _) => false | _, _ => true end
   | SIf c th el => fpow_free tys c && fpow_free_b tys th && fpow_free_e tys el
+  | SFor c b => fpow_free tys c && fpow_free_b tys b
+  | SLoop b => fpow_free_b tys b
+  | SRange _ _ _ start stop step b =>
+      match start with Some e => fpow_free tys e | None => true end && fpow_free tys stop &&
+      match step with Some (_, e) => fpow_free tys e | None => true end && fpow_free_b tys b
+  | SBreak | SContinue => true
   end
 with fpow_free_b (tys : list ty) (b : block) : bool :=
   match b with BNil => true | BCons s r => fpow_free_s tys s && fpow_free_b tys r end
